@@ -88,7 +88,7 @@ impl Check for C17 {
         proptest::strategy::Union::new(vec![mk(false).boxed(), mk(true).boxed()]).boxed()
     }
     fn cases(&self, tier: Tier) -> u32 {
-        tier.pick(6000, 100000)
+        tier.pick(24000, 300000)
     }
     fn run(&self, case: &SkipCase, st: &mut Stats) -> Verdict {
         let g = with_skip(&case.base.grammar);
